@@ -381,26 +381,45 @@ class SymBytes:
         if sub != b'\x00':
             raise Unsupported('bytes.index of %r' % (sub,))
         E = core.ENG
-        L = self._known_len('index')
-        for i in range(L):
+        Lt = self.len_t()
+        L = E.unique_value(Lt)
+        i = 0
+        while True:
+            if L is not None:
+                if i >= L:
+                    break
+            elif not E.branch(Lt > i):
+                break
             t = z3.simplify(self.at(z3.IntVal(i)))
             if z3.is_int_value(t):
                 if t.as_long() == 0:
                     return i
-                continue
-            if E.branch(t == 0):
+            elif E.branch(t == 0):
                 return i
+            i += 1
+            if i > 4096 and L is None:
+                raise Unsupported('index over a long symbolic-length buffer')
         raise core.deliberate(ValueError('subsection not found'))
 
     @guard
     def decode(self, enc='utf-8', errors='strict'):
-        from .sstr import SymStr, SymChar
+        from .sstr import SymStr, SymChar, LazyTailStr
         if enc != 'ascii' or errors != 'strict':
             raise Unsupported('decode(%r, %r)' % (enc, errors))
         E = core.ENG
-        L = self._known_len('decode')
+        Lt = self.len_t()
+        L = E.unique_value(Lt)
+        lmin = L
+        if L is None:
+            # symbolic length: decode the certain prefix eagerly, the rest
+            # lazily (only legal when the possible tail is concrete ASCII)
+            lmin = 0
+            while E.valid(Lt > lmin):
+                lmin += 1
+                if lmin > 8192:
+                    raise Unsupported('decode: long symbolic-length buffer')
         out = []
-        for i in range(L):
+        for i in range(lmin):
             t = z3.simplify(self.at(z3.IntVal(i)))
             if z3.is_int_value(t):
                 v = t.as_long()
@@ -414,7 +433,23 @@ class SymBytes:
                     raise core.deliberate(UnicodeDecodeError(
                         'ascii', b'', i, i + 1, 'ordinal not in range(128)'))
                 out.append(ch)
-        return SymStr(out)
+        if L is not None:
+            return SymStr(out)
+        lmax = None
+        for cand in (512, 1024, 4096, 65536, 1 << 20):
+            if E.valid(Lt <= cand):
+                lmax = cand
+                break
+        if lmax is None:
+            raise Unsupported('decode: unbounded symbolic length')
+        tail = []
+        for i in range(lmin, lmax):
+            t = z3.simplify(self.at(z3.IntVal(i)))
+            if not z3.is_int_value(t) or t.as_long() >= 128:
+                raise Unsupported('decode: symbolic-length buffer whose '
+                                  'tail is not concrete ASCII')
+            tail.append(t.as_long())
+        return LazyTailStr(out, tail, Lt, lmin)
 
     def concretize(self, model):
         out = b''
